@@ -15,8 +15,10 @@
     specification, 4 CompletePath, 5 client query round trip, 6 scalar round
     trip, 7 FromScalar/ToScalar panicked, 8 Equal panicked, 9 Equal not
     symmetric or true on different values.
-    Known classes: 11 Equal nil dereference (DEFECT C19_1), 12 ToScalar nil
-    dereference (DEFECT C19_2), 13 last query element ending in '/' dropped. *)
+    Known class: 13 last query element ending in '/' dropped (KF-C19-3).
+    (Classes 11 / 12 were the nil dereferences of Equal / ToScalar, DEFECT
+    C19_1 / C19_2, fixed by b28d6aa / e8be1b1: such a panic is now an ordinary
+    failure, tag 8 / 7.) *)
 From Gnmi Require Import Base.Prelude Path.PathModel Path.QueryString Value.ValueModel.
 Open Scope list_scope.
 
@@ -257,11 +259,11 @@ Definition check_case (c : case) : list N :=
             end) 6
   | CToScalar t jvalid r =>
       flag (ores_eqb gs_eqb r (project (to_scalar (jv_of jvalid) t))) 1 ++
-      (if is_panic r then (if has_nil t then [12%N] else [7%N]) else [])
+      (if is_panic r then [7%N] else [])
   | CEqual a b rab rba =>
       flag (ores_eqb Bool.eqb rab (project (equal a b)) && ores_eqb Bool.eqb rba (project (equal b a))) 1 ++
       (if is_panic rab || is_panic rba
-       then (if has_nil a || has_nil b then [11%N] else [8%N])
+       then [8%N]
        else
          flag (ores_eqb Bool.eqb rab rba &&
                match rab with ROk true => tv_same a b | _ => true end &&
